@@ -87,7 +87,7 @@ class BitCoder(T.Coder):
 
 
 # ---------------------------------------------------------------- coherence oracle on the live table
-def coherence_failures(t):
+def coherence_failures(t, order=0):
     f = []
     oids = [str(i) for i in t.ids(axis='observation')]
     sids = [str(i) for i in t.ids()]
@@ -121,8 +121,12 @@ def coherence_failures(t):
             f.append('%s metadata has %d entries for %d ids' % (ax, len(md), len(ids)))
     if f or not oids or not sids or D.shape != (len(oids), len(sids)):
         return f
-    # accessors
-    for ax, ids in (('observation', oids), ('sample', sids)):
+    # accessors: each block reads the table through one family of accessors.  Some accessors change the
+    # internal layout as a side effect (data / iter convert to CSR or CSC, nnz eliminates stored zeros), which
+    # would "heal" what an operation left behind before the next accessor looks; the blocks are therefore
+    # rotated by `order`, so that every family is, on some steps, the FIRST to see the table as the
+    # operation left it.
+    def per_axis(ax, ids):
         for n, i in enumerate(ids):
             want = D[n, :] if ax == 'observation' else D[:, n]
             got = np.asarray(t.data(i, axis=ax, dense=True), dtype=float).ravel()
@@ -147,21 +151,32 @@ def coherence_failures(t):
             want = [(ids[a], ids[b], vec(a), vec(b)) for a in range(len(ids)) for b in range(a + 1, len(ids))]   # tri=True, diag=False
             if pw != want:
                 f.append('iter_pairwise(%s) disagrees with the matrix' % ax)
-    for n, o in enumerate(oids):
-        for k, s in enumerate(sids):
-            if t.get_value_by_ids(o, s) != D[n, k]:
-                f.append('get_value_by_ids(%r,%r) = %r, matrix says %r' % (o, s, t.get_value_by_ids(o, s), D[n, k]))
-    nz = [(str(a), str(b)) for a, b in t.nonzero()]
-    want = [(oids[n], sids[k]) for n in range(len(oids)) for k in range(len(sids)) if D[n, k] != 0]
-    if sorted(nz) != sorted(want) or len(nz) != len(want):
-        f.append('nonzero() = %s, matrix says %s' % (nz, want))
-    if not np.isclose(float(t.sum('whole')), D.sum(), rtol=1e-12, atol=0, equal_nan=True):
-        f.append('sum(whole) = %r, matrix says %r' % (float(t.sum('whole')), D.sum()))
-    cnt = int((D != 0).sum())
-    if t.nnz != cnt:
-        f.append('nnz = %r, matrix has %d non-zero cells' % (t.nnz, cnt))
-    if abs(t.get_table_density() - cnt / D.size) > 1e-12:
-        f.append('density = %r, matrix says %r' % (t.get_table_density(), cnt / D.size))
+
+    def cells():
+        for n, o in enumerate(oids):
+            for k, s in enumerate(sids):
+                if t.get_value_by_ids(o, s) != D[n, k]:
+                    f.append('get_value_by_ids(%r,%r) = %r, matrix says %r' % (o, s, t.get_value_by_ids(o, s), D[n, k]))
+
+    def listing():
+        nz = [(str(a), str(b)) for a, b in t.nonzero()]
+        want = [(oids[n], sids[k]) for n in range(len(oids)) for k in range(len(sids)) if D[n, k] != 0]
+        if sorted(nz) != sorted(want) or len(nz) != len(want):
+            f.append('nonzero() = %s, matrix says %s' % (nz, want))
+
+    def totals():
+        if not np.isclose(float(t.sum('whole')), D.sum(), rtol=1e-12, atol=0, equal_nan=True):
+            f.append('sum(whole) = %r, matrix says %r' % (float(t.sum('whole')), D.sum()))
+        cnt = int((D != 0).sum())
+        if t.nnz != cnt:
+            f.append('nnz = %r, matrix has %d non-zero cells' % (t.nnz, cnt))
+        if abs(t.get_table_density() - cnt / D.size) > 1e-12:
+            f.append('density = %r, matrix says %r' % (t.get_table_density(), cnt / D.size))
+
+    blocks = [lambda: per_axis('observation', oids), lambda: per_axis('sample', sids), cells, listing, totals]
+    k = order % len(blocks)
+    for b in blocks[k:] + blocks[:k]:
+        b()
     return f
 
 
@@ -339,7 +354,7 @@ def _stored(t):
 def _run(c):
     t = T.build(c['start'])
     aux = [T.build(s) for s in c['aux']]
-    out = [['start', T.norm_snap(T.snapshot(t)), coherence_failures(t), _stored(t)]]
+    out = [['start', T.norm_snap(T.snapshot(t)), coherence_failures(t, c.get('rot', 0)), _stored(t)]]
     recs = []
     bystanders = [('auxiliary table %d' % n, a, canon(T.norm_snap(T.snapshot(a)))) for n, a in enumerate(aux)]
     for step, op in enumerate(c['ops']):
@@ -358,7 +373,7 @@ def _run(c):
         except Exception as e:
             rec.setdefault('op', [99])
             after = T.norm_snap(T.snapshot(t))
-            entry = ['err', T.err_code(e), after, coherence_failures(t) + _bystander_failures(bystanders), canon(after) == canon(before),
+            entry = ['err', T.err_code(e), after, coherence_failures(t, c.get('rot', 0) + step + 1) + _bystander_failures(bystanders), canon(after) == canon(before),
                      _stored(t)]
             rec['after'] = after
             rec['err'] = True
@@ -375,7 +390,7 @@ def _run(c):
         rec['after'] = after
         rec['err'] = False
         recs.append(rec)
-        out.append(['ok', after, coherence_failures(t) + _bystander_failures(bystanders), _stored(t)])
+        out.append(['ok', after, coherence_failures(t, c.get('rot', 0) + step + 1) + _bystander_failures(bystanders), _stored(t)])
     _STASH[jhash(c)] = recs
     return out
 
@@ -570,7 +585,7 @@ def gen_case(rng, depth):
     if rng.random() < 0.4:
         at = rng.randint(0, len(ops))
         ops[at:at] = gen_idiom(rng)
-    return {'start': start, 'aux': aux, 'ops': ops}
+    return {'start': start, 'aux': aux, 'ops': ops, 'rot': rng.randint(0, 4)}
 
 
 def gen(rng, tier):
